@@ -4,6 +4,7 @@ mod gj;
 mod ops_c17;
 mod ops_centroid;
 mod ops_distance;
+mod ops_hull;
 mod ops_kernel;
 mod ops_c18;
 mod ops_poly;
@@ -75,6 +76,7 @@ fn dispatch_case(cx: &mut Ctx, n: u64, case: &Value) {
         "distance" => ops_distance::distance_case(cx, n, case),
         "segseg" => ops_segseg::segseg_case(cx, n, case),
         "kernel" => ops_kernel::kernel_case(cx, n, case),
+        "hull" => ops_hull::hull_case(cx, n, case),
         "poly" => ops_poly::poly_case(cx, n, case),
         "relate" => ops_relate::relate_case(cx, n, case),
         "coordpos" => ops_relate::coordpos_case(cx, n, case),
